@@ -17,9 +17,8 @@ inductive Dir | forward | adjoint
   deriving DecidableEq, Repr
 
 /-- The ways `resize_array` refuses an input.  All are `ValueError` in the code.
-`offset` is NOT a guard of the code: it stands for `offset + min(n_in, n_out) > max(…)`,
-where NumPy either raises a broadcasting error or silently broadcasts a truncated block;
-such offsets are outside the property and are not compared. -/
+`offset`: the offset is not in `[0, |n_new - n_orig|]` (there is then no placement of the
+smaller array inside the larger one). -/
 inductive Err
   | padConstAdjoint | order0Empty | order1Short | periodicTooLong | symmetricTooLong
   | offset
